@@ -17,6 +17,10 @@ func PluginName(r *rand.Rand) string {
 		}
 		b.WriteByte(ch)
 	}
+	if r.IntN(16) == 0 {
+		// names that already carry (part of) the suffix the rule appends
+		b.WriteString([]string{"-buildkite-plugin", "-buildkite", "-plugin", "-buildkite-plugin-v2", ".git"}[r.IntN(5)])
+	}
 	return b.String()
 }
 
